@@ -10,6 +10,7 @@ extern char gsrc_k, gsrc_j;      /* snapshots of the source at gk / gj before th
 extern char gdst_k, gdst_j;      /* snapshots of dest at gk / gj before the call       */
 extern size_t g_dlen;            /* Skolem: position of dest's first NUL (cat family)  */
 extern size_t g_slen0;           /* slen at entry (n-variants count it down)           */
+extern int g_sterm;              /* entry fact: src is terminated inside its extent     */
 extern int g_hcalls;
 extern int g_herr;
 #endif
